@@ -123,7 +123,9 @@ class C03(Property):
                                   (4, "periodic"), (2, "endless"),
                                   (2, "repeat_n"), (1, "lit_repeat_n"),
                                   (1, "list"), (1, "range"), (1, "gen"),
-                                  (2, "odd")])
+                                  (2, "odd"), (1, "control"), (1, "mixer"),
+                                  (1, "tostream"), (1, "lit_count"),
+                                  (1, "lit_chain"), (1, "periodic_adv")])
       if kind == "finite":
         roots.append({"kind": kind, "len": W.choose("len", 13)})
       elif kind == "chain":
@@ -132,8 +134,12 @@ class C03(Property):
       elif kind == "periodic":
         roots.append({"kind": kind, "n": W.span("per", 1, 4)})
       elif kind in ("repeat_n", "lit_repeat_n", "list", "range", "gen",
-                    "odd"):
+                    "odd", "mixer", "tostream", "lit_chain"):
         roots.append({"kind": kind, "len": W.choose("len", 8)})
+      elif kind == "periodic_adv":
+        # a periodic stream that was already advanced when the history starts
+        roots.append({"kind": kind, "n": W.span("per", 1, 4),
+                      "adv": W.span("adv", 1, 5)})
       else:
         roots.append({"kind": kind})
     ops = []
@@ -323,6 +329,41 @@ class _Ctx(object):
       elif r["kind"] == "odd":
         vals = ODD_VALUES[:r["len"]]
         self.add("stream", Stream(list(vals)), HandleModel(ListSeq(vals)))
+      elif r["kind"] == "control":
+        # Stream subclasses inherit every method of the statement
+        from audiolazy import lazy_stream
+        self.add("stream", lazy_stream.ControlStream(5),
+                 HandleModel(FnSeq(lambda i: 5, None)))
+      elif r["kind"] == "mixer":
+        from audiolazy import lazy_stream
+        vals = list(range(60, 60 + r["len"]))
+        mix = lazy_stream.Streamix()
+        mix.add(2, list(vals))
+        self.add("stream", mix, HandleModel(ListSeq([0, 0] + vals)))
+      elif r["kind"] == "tostream":
+        from audiolazy import lazy_stream
+        vals = list(range(50, 50 + r["len"]))
+
+        @lazy_stream.tostream
+        def produce(data):
+          for v in data:
+            yield v
+        self.add("stream", produce(vals), HandleModel(ListSeq(vals)))
+      elif r["kind"] == "lit_count":
+        from audiolazy import lazy_itertools
+        self.add("stream", lazy_itertools.count(30),
+                 HandleModel(FnSeq(lambda i: 30 + i, None)))
+      elif r["kind"] == "lit_chain":
+        from audiolazy import lazy_itertools
+        vals = list(range(20, 20 + r["len"]))
+        self.add("stream", lazy_itertools.chain(vals[:2], iter(vals[2:])),
+                 HandleModel(ListSeq(vals)))
+      elif r["kind"] == "periodic_adv":
+        vals = [800 + i for i in range(r["n"])]
+        real = Stream(*vals)
+        real.take(r["adv"])
+        self.add("stream", real, HandleModel(
+          FnSeq(lambda i, v=vals, a=r["adv"]: v[(i + a) % len(v)], None)))
       elif r["kind"] in ("list", "range", "gen"):
         vals = list(range(40, 40 + r["len"]))
         real = Stream(vals if r["kind"] == "list" else
